@@ -295,6 +295,60 @@ func VH_C17_JoinElided() {
 	}
 }
 
+type vnJoinSignsU struct {
+	V uint8 `@( "+"? "-"? A )`
+}
+type vnJoinSignsI struct {
+	V *int8 `@( "+"? "-"? A )`
+}
+
+// several tokens, among them leading signs, captured into a scalar: the joined
+// text is what strconv sees (ParseUint rejects any sign, ParseInt two signs)
+func VH_C17_JoinSigns() {
+	t := vhNumTexts[vChoose("text", len(vhNumTexts))]
+	pos := func(i int) lexer.Position { return lexer.Position{Filename: "f", Offset: i, Line: 1, Column: i + 1} }
+	var toks []lexer.Token
+	joined := ""
+	if vBool("plus") {
+		toks = append(toks, lexer.Token{Type: vhTB, Value: "+", Pos: pos(len(toks))})
+		joined += "+"
+	}
+	if vBool("minus") {
+		toks = append(toks, lexer.Token{Type: vhTB, Value: "-", Pos: pos(len(toks))})
+		joined += "-"
+	}
+	toks = append(toks, lexer.Token{Type: vhTA, Value: t, Pos: pos(len(toks))})
+	joined += t
+	toks = append(toks, lexer.EOFToken(pos(len(toks))))
+	if vBool("unsigned") {
+		p := vhBuild[vnJoinSignsU](vhNoElide, &vhStreamDef{toks: toks}, 1)
+		ast, err := p.ParseString("f", "")
+		want, werr := strconv.ParseUint(joined, 0, 8)
+		if werr == nil {
+			vAssert(err == nil && uint64(ast.V) == want, "C17: joined text accepted by ParseUint but the parse failed or stored another value")
+			vReach("converts")
+		} else {
+			vAssert(err != nil, "C17: joined text rejected by ParseUint but the parse succeeded")
+			pe, ok := err.(Error)
+			vAssert(ok && pe.Position() == toks[0].Pos, "C17: conversion error is not located at the first captured token")
+			vReach("rejects")
+		}
+		return
+	}
+	p := vhBuild[vnJoinSignsI](vhNoElide, &vhStreamDef{toks: toks}, 1)
+	ast, err := p.ParseString("f", "")
+	want, werr := strconv.ParseInt(joined, 0, 8)
+	if werr == nil {
+		vAssert(err == nil && ast.V != nil && int64(*ast.V) == want, "C17: joined text accepted by ParseInt but the parse failed or stored another value")
+		vReach("converts")
+	} else {
+		vAssert(err != nil, "C17: joined text rejected by ParseInt but the parse succeeded")
+		pe, ok := err.(Error)
+		vAssert(ok && pe.Position() == toks[0].Pos, "C17: conversion error is not located at the first captured token")
+		vReach("rejects")
+	}
+}
+
 type vnPtrSlice struct {
 	V []*int8 `@A+`
 }
